@@ -17,7 +17,7 @@ RULE = ("Hypothesis generates polynomials A, B, C over M<=5 modes: 1-4 monomials
         "flip (some factor pair c_i ... c+_i out of order), or an equality query on operators with different monomial sets.")
 ASSUMPTIONS = ["numpy Jordan-Wigner matrices (pbt/oracle.py)", "coefficients are dyadic so that every sum is exact (no near-ties around the 100*epsilon erasure threshold)"]
 CONFIG = {
-    "quick": {"flavours": ["real", "complex"], "shards": 8, "examples": 300, "min_nontrivial": 500, "budget_s": 100},
+    "quick": {"flavours": ["real", "complex"], "shards": 8, "examples": 1500, "min_nontrivial": 500, "budget_s": 120},
     "thorough": {"flavours": ["real", "complex"], "shards": 16, "examples": 6000, "min_nontrivial": 10000, "budget_s": 3000},
 }
 REQUIRED_CLASSES = {"quick": ["contraction", "equal-rewritten", "unequal", "commuting", "non-commuting", "long-monomial", "sz"],
